@@ -57,6 +57,16 @@ class NP:
         return s[n // 2] if n % 2 else (s[n // 2 - 1] + s[n // 2]) * SReal.of(F(1, 2))
 
     @staticmethod
+    def isclose(a, b, rtol=1e-05, atol=1e-08):
+        # numpy.isclose: |a - b| <= atol + rtol * |b|; nothing finite is close to an infinity
+        if any(isinstance(x, float) and x in (float('inf'), float('-inf')) for x in (a, b)):
+            return a == b if not isinstance(a, SReal) and not isinstance(b, SReal) else False
+        a, b = SReal.of(a), SReal.of(b)
+        d = symx.ite(a >= b, a - b, b - a)
+        ab = symx.ite(b >= SReal.of(0), b, SReal.of(0) - b)
+        return d <= SReal.of(F(str(atol))) + SReal.of(F(str(rtol))) * ab
+
+    @staticmethod
     def mean(v):
         return builtins.sum(v[1:], v[0]) * SReal.of(F(1, len(v)))
 
@@ -106,9 +116,92 @@ def load_fn():
     return ns['rank_features_3MR']
 
 
+# ---- the task level: construction of the three dictionaries from the triplets, then 3mr_ranks.tsv --------------------------------
+T_COLS = ['fa', 'fb', 'fc', 'fd', 'fe', 'label']
+T_VARIANTS = 6
+
+
+def t_score(variant):
+    """a symmetric token scorer: a different value per unordered pair of column names, rearranged by the variant"""
+    def f(x, y):
+        k = '|'.join(sorted((x, y)))
+        h = sum(ord(c) * (i + 3 + variant) for i, c in enumerate(k)) * (7 + 2 * variant) + 13 * variant
+        return float(h % 997) / 997.0
+    return f
+
+
+def t_problem(variant, nfeat):
+    import statistics
+    from harness import C08
+    cols = T_COLS[:nfeat] + ['label']
+    rows = [[f'{c[1]}{(i * (j + 2) + i // 2) % 3}' for j, c in enumerate(cols[:-1])] + [str(i % 2)] for i in range(4)]
+    lines = [','.join(r) + '\n' for r in rows]
+    res = C08.drive_task(lines, 1, len(rows), heuristic='MI-numba-3mr', cols=cols, scorefn=t_score(variant),
+                         extra=['--interaction_order', '2', '--include_cardinality_in_feature_names', 'False', '--combination_number_upper_bound', '10000'])
+    if '3mr' not in res:
+        return f'3mr_ranks.tsv was not written (exit={res.get("exit")})'
+    trip = {(a, b): float(s) for a, b, s in res['ranks']}
+    REL = ' AND_REL '
+
+    def norm(d):
+        lo, hi = min(d.values()), max(d.values())
+        return {k: (v - lo) / (hi - lo) for k, v in d.items()}
+    relevance = norm({a: s for (a, b), s in trip.items() if b == 'label' and a != 'label' and REL not in a})
+    rl = {a: s for (a, b), s in trip.items() if b == 'label' and REL in a}
+    relation = {}
+    for k, v in (norm(rl) if rl else {}).items():
+        x, y = k.split(REL)
+        relation[(x, y)] = relation[(y, x)] = v
+    redundancy = norm({(a, b): s for (a, b), s in trip.items() if a != 'label' and b != 'label' and REL not in a and REL not in b})
+    feats = sorted(relevance)      # every non-relation column scored against the label is a feature (constructed interaction columns included)
+    order = [r[0] for r in res['3mr']]
+    ranks = [int(r[1]) for r in res['3mr']]
+    if sorted(order) != sorted(feats) or ranks != list(range(1, len(feats) + 1)):
+        return f'3mr_ranks.tsv is not a ranking 1..n of the features: {res["3mr"]}'
+    if relevance[order[0]] < max(relevance.values()) - 1e-9:
+        return f'first feature {order[0]} is not of maximal relevance'
+    for pos in range(1, len(order)):
+        prev = order[:pos]
+
+        def imp(g):
+            return relevance[g] - statistics.median([redundancy.get((p_, g), 0) for p_ in prev]) + statistics.median([relation.get((p_, g), 0) for p_ in prev])
+        best = max(order[pos:], key=imp)
+        if imp(order[pos]) < imp(best) - 1e-9:
+            return f'3mr_ranks.tsv position {pos + 1} holds {order[pos]} (objective {imp(order[pos]):.6f} from the scores in pairwise_ranks.tsv) although {best} reaches {imp(best):.6f}'
+    return None
+
+
+def run_task(job):
+    st = {}
+    loader.record_functions('outrank/task_ranking.py', ['outrank_task_conduct_ranking'])
+    loader.record_functions('outrank/algorithms/importance_estimator.py', ['rank_features_3MR'])
+
+    def setup(ctx):
+        st['v'], st['n'] = z3.Int('variant'), z3.Int('nfeat')
+        ctx.assume(st['v'] >= 0, st['v'] < T_VARIANTS, st['n'] >= 3, st['n'] <= 5)
+        for k, v in job['pins'].items():
+            ctx.assume(z3.Int(k) == v)
+
+    def body(ctx, out):
+        v, n = int(symx.SInt(st['v'], 0, T_VARIANTS - 1)), int(symx.SInt(st['n'], 3, 5))
+        w = {'cond': 'task', 'variant': v, 'nfeat': n}
+        try:
+            p = t_problem(v, n)
+        except Exception as e:
+            import traceback
+            tb = traceback.extract_tb(e.__traceback__)[-1]
+            p = f'{type(e).__name__}: {e} ({tb.name}:{tb.lineno})'
+        if p or out.twin:
+            out.concrete_fail(w, p or 'twin')
+        else:
+            out.concrete_ok()
+        out.sample(w)
+    return hutil.run_symx(job, setup, body)
+
+
 def jobs(tier):
     import pandas  # noqa: imported once in the parent so forked jobs inherit it
-    out = []
+    out = [{'cond': 'task', 'pins': {'nfeat': n}, 'weight': 10, 'label': f'ranking task, MI-numba-3mr, interaction order 2, {n} features'} for n in (3, 4, 5)]
     for n, strat in BOUNDS[tier]:
         grid = [(a, b) for a in GRID for b in GRID]
         if n >= 4:
@@ -122,6 +215,8 @@ def jobs(tier):
 
 
 def run_job(job):
+    if job['cond'] == 'task':
+        return run_task(job)
     n, strat, sparse = job['n'], job['strategy'], job['sparse']
     alpha, beta = F(job['alpha']), F(job['beta'])
     rank = load_fn()
@@ -227,6 +322,14 @@ def run_job(job):
 
 
 def replay(w):
+    if w.get('cond') == 'task':
+        try:
+            p = t_problem(w['variant'], w['nfeat'])
+        except Exception as e:
+            p = f'{type(e).__name__}: {e}'
+        if p:
+            return {'reproduced': True, 'signature': 'C17:task:' + ('exception' if 'Error' in p.split(':')[0] else 'greedy'), 'what': f'ranking task with MI-numba-3mr, interaction order 2, {w["nfeat"]} features (score variant {w["variant"]}): {p}'}
+        return {'reproduced': False, 'what': '3mr_ranks.tsv is greedy-optimal for the scores in pairwise_ranks.tsv'}
     loader.use_repo_on_syspath()
     import statistics
     from outrank.algorithms.importance_estimator import rank_features_3MR
